@@ -342,7 +342,7 @@ Proof.
 Qed.
 
 (* finalize_table from a good root (no pending empty array of tables) *)
-Lemma fin_ok_good root (path : list key) ia : good_tbl root = true -> path <> [] ->
+Lemma fin_ok_good root (path : list key) (ia : bool) : good_tbl root = true -> path <> [] ->
   forall ppath k, pop_key path = Some (ppath, k) ->
   (forall cur, good_tbl cur = true ->
      cres_ok (fun p' (_ : unit) => good_tbl p' = true /\ True)
